@@ -23,7 +23,7 @@ SPEC = {
                "TestWire/keep_alive_with_multi_read_answer": 0.16,
                "TestWire/http2_gun": 0.077, "TestWire/http2_keep_alive_off_ge_2_requests": 0.031,
                "TestWire/http2_keep_alive_more_requests_than_instances": 0.02, "TestWire/connect_gun": 0.05, "TestWire/http_gun": 0.4,
-               "TestWire/target_by_name": 0.17, "TestWire/target_by_name_host_defaulted": 0.1,
+               "TestWire/target_by_name": 0.16, "TestWire/target_by_name_host_defaulted": 0.1,
                "TestWire/target_by_name_host_defaulted_ssl": 0.055, "TestWire/target_by_name_host_defaulted_http2": 0.018,
                "TestWire/target_by_name_dns_cache_off": 0.04, "TestWire/target_ip_literal_host_defaulted": 0.25},
     "manifest": {
